@@ -6,7 +6,8 @@ for B in /tmp/wt-out/$P$SUF/bug*; do
   [ -d "$B" ] || continue
   k=1; while [ -d seeded/$P-$k ]; do k=$((k+1)); done
   echo "### $P-$k  ($B)"
-  if tools/verify_seeded.sh /tmp/wt/$P$SUF $B; then
+  V=tools/verify_seeded.sh; [ "$P" = C18 ] && V=tools/verify_seeded_c18.sh; [ "$P" = C19 ] && V=tools/verify_seeded_c19.sh
+  if $V /tmp/wt/$P$SUF $B; then
     d=seeded/$P-$k; mkdir -p $d; cp $B/patch.diff $B/demo.rs $d/
     python3 - "$P" "$k" "$B" <<'PY'
 import json,sys
@@ -15,7 +16,8 @@ try: m=json.load(open(f'{b}/meta.json'))
 except Exception as e: m={'summary':'(meta.json unreadable: %s)'%e}
 m['breaks_property']=p
 m['origin']='independent sub-agent given only the property text and a scratch worktree'
-m['confirmed_by_me']={'how':'tools/verify_seeded.sh <scratch worktree> <dir>: demo passes on the unchanged tree, patch applies, cargo build (default and --features verif) ok, cargo test --lib shows 41 passed, demo fails with the patch','result':'confirmed'}
+how={'C18':'tools/verify_seeded_c18.sh <scratch worktree> <dir>: examples/demo.rs exits 0 on tokio, async-std and smol on the unchanged tree and non-zero on at least one runtime with the patch; builds with default, verif, async_runtime and smol_runtime features; cargo test --lib shows 41 passed','C19':'tools/verify_seeded_c19.sh <scratch worktree> <dir>: cargo check --example demo is rejected on the unchanged tree and accepted with the patch; cargo build (default and --features verif) ok; cargo test --lib shows 41 passed'}.get(p,'tools/verify_seeded.sh <scratch worktree> <dir>: demo passes on the unchanged tree, patch applies, cargo build (default and --features verif) ok, cargo test --lib shows 41 passed, demo fails with the patch')
+m['confirmed_by_me']={'how':how,'result':'confirmed'}
 json.dump(m,open(f'/verif/seeded/{p}-{k}/meta.json','w'),indent=1)
 PY
     for c in $P $EXTRA; do tools/mutate.sh $d/patch.diff $c 2>&1 | grep -E "VIOLATION|quick:|ERROR|error:" | cut -c1-220; done
